@@ -188,6 +188,45 @@ Theorem C19_visualize_genuine_partial :
 Proof. exact visualize_genuine. Qed.
 Print Assumptions C19_visualize_genuine_partial.
 
+(* ... and the size of the tree is bounded by the schema: its height by the nesting depth, its number of memoised
+   ids by the number of truthy hashable "__id__" values (jids lists their hashes, with repetitions) *)
+Theorem C19_built_tree_bounded_by_schema :
+  forall E schema t m, root_tree E schema = Ok (t, m) ->
+    (height t <= jdepth schema)%nat /\ (length (ids t) <= length (jids schema))%nat.
+Proof. intros E schema t m H. split; [eapply root_tree_height | eapply root_tree_ids_count]; eauto. Qed.
+Print Assumptions C19_built_tree_bounded_by_schema.
+
+(* hence two arithmetic conditions on the schema alone make every verdict of the model genuine, whatever else is
+   wrong with the schema *)
+Theorem C19_get_untrusted_types_schema_partial :
+  forall E schema, (jdepth schema < default_fuel)%nat ->
+    (length (jids schema) * S (jdepth schema) + jdepth schema + 2 <= unsafe_fuel)%nat ->
+    get_untrusted_types E schema <> Raise EFuel.
+Proof. exact get_untrusted_types_schema. Qed.
+Print Assumptions C19_get_untrusted_types_schema_partial.
+
+Theorem C19_load_audit_schema_partial :
+  forall E schema ta, (jdepth schema < default_fuel)%nat ->
+    (length (jids schema) * S (jdepth schema) + jdepth schema + 2 <= unsafe_fuel)%nat ->
+    load_audit E schema ta <> Raise EFuel.
+Proof. exact load_audit_schema. Qed.
+Print Assumptions C19_load_audit_schema_partial.
+
+Theorem C19_visualize_schema_partial :
+  forall E skipped schema T sh, (jdepth schema < default_fuel)%nat ->
+    (length (jids schema) * S (jdepth schema) + jdepth schema + 2 <= unsafe_fuel)%nat ->
+    (2 * length (jids schema) * S (jdepth schema) + jdepth schema + 2 <= walk_fuel)%nat ->
+    visualize E skipped schema T sh <> Raise EFuel.
+Proof. exact visualize_schema. Qed.
+Print Assumptions C19_visualize_schema_partial.
+
+Theorem C19_construct_trace_schema_partial :
+  forall E schema t m, root_tree E schema = Ok (t, m) ->
+    (length (jids schema) * S (jdepth schema) + jdepth schema + 2 <= 3000)%nat ->
+    construct_trace t <> Raise EFuel.
+Proof. exact construct_trace_schema. Qed.
+Print Assumptions C19_construct_trace_schema_partial.
+
 (* The hypotheses hold of a non-trivial graph: the tree get_tree builds (registry of /repo) from
    root = [a, a, root] with a = [a, []] -- id 4 (a) is shared and cyclic, id 2 (the root) is cyclic *)
 Example C19_knot_fits :
@@ -204,6 +243,16 @@ Example C19_knot_fits :
 Proof.
   eexists. eexists. split; [vm_compute; reflexivity|].
   repeat split; try (vm_compute; reflexivity); try (apply Nat.leb_le; vm_compute; reflexivity); apply Nat.ltb_lt; vm_compute; reflexivity.
+Qed.
+
+Example C19_knot_schema_fits :
+  jids (knot_json Snapshot.current) = [HNum 2; HNum 4; HNum 4; HNum 4; HNum 2]
+  /\ jdepth (knot_json Snapshot.current) = 6%nat
+  /\ (length (jids (knot_json Snapshot.current)) * S (jdepth (knot_json Snapshot.current)) + jdepth (knot_json Snapshot.current) + 2 <= unsafe_fuel)%nat
+  /\ (2 * length (jids (knot_json Snapshot.current)) * S (jdepth (knot_json Snapshot.current)) + jdepth (knot_json Snapshot.current) + 2 <= walk_fuel)%nat.
+Proof.
+  split; [vm_compute; reflexivity|]. split; [vm_compute; reflexivity|].
+  split; apply Nat.leb_le; vm_compute; reflexivity.
 Qed.
 
 (* an instance of the general statements in the middle of a walk: standing on the child a with the root on the path *)
